@@ -190,10 +190,19 @@ func H_C11_text() {
 		vAssert(len(r1) == 1 && r1[0].Id == 5, "search-1-exact")
 		vAssert(len(r2) == 1 && r2[0].Id == 3, "search-2-exact")
 	case 2:
+		// one removal is already pending (Flush has work to do) while another one races with the Flush
+		if vChoose("pending_before", 2) == 1 {
+			vAssert(ix.Remove(3) == nil, "remove-ok")
+		}
 		vPar(2, func() { e1 = ix.Remove(5) }, func() { e2 = ix.Flush() })
 		vAssert(e1 == nil && e2 == nil, "no-error-from-interleaving")
-		r, _ := ix.NewSearch().WithQuery("tick").WithK(0).Execute()
-		vAssert(len(r) == 0, "removal-completed-then-invisible")
+		for pass := 0; pass < 2; pass++ {
+			r, _ := ix.NewSearch().WithQuery("tick").WithK(0).Execute()
+			vAssert(len(r) == 0, "removal-completed-then-invisible")
+			rf, _ := ix.NewSearch().WithQuery("fox").WithK(0).Execute()
+			vAssert(len(rf) == 1 && rf[0].Id == 9, "removal-completed-then-invisible")
+			vAssert(ix.Flush() == nil, "flush-ok")
+		}
 	}
 	vCover("ran")
 }
@@ -310,7 +319,17 @@ func H_C11_meta() {
 	}
 	var rs []MetadataResult
 	var e1, e2 error
-	switch vChoose("pair", 3) {
+	switch vChoose("pair", 4) {
+	case 3: // two read-only searches with negative operands (mixed-sign numeric field): searches must not write
+		var rs2 []MetadataResult
+		vPar(2, func() { rs, e1 = mi.NewSearch().WithFilters(Lt("n", -1)).Execute() },
+			func() { rs2, e2 = mi.NewSearch().WithFilters(Gte("n", -4)).Execute() })
+		vAssert(e1 == nil && e2 == nil, "no-error-from-interleaving")
+		g1, g2 := ids(rs), ids(rs2)
+		vAssert(len(g1) == 1 && g1[0] == 3, "search-1-exact")
+		vAssert(len(g2) == 2 && vContains(g2, 3) && vContains(g2, 5), "search-2-exact")
+		after, _ := mi.NewSearch().WithFilters(Exists("n")).Execute()
+		vAssert(len(after) == 2, "searches-left-the-index-unchanged")
 	case 0:
 		vPar(2, func() { e1 = mi.Add(*NewMetadataNodeWithID(9, map[string]interface{}{"c": "x", "n": 8})) },
 			func() { rs, e2 = mi.NewSearch().WithFilters(Eq("c", "x"), Gte("n", 0)).Execute() })
